@@ -55,6 +55,12 @@ F20 = {"spec": {"in": None, "in/a": None, "in/a/sub": None, "in/a/sub2": None, "
        "strategy": "stop", "answers": [], "plan": {"in/a|sub": "sub2", "in|a": "c", "in|b": "a"},
        "order": {"in/a|sub": 0, "in|a": 1, "in|b": 2}, "sorted": False, "invert": False, "dry": False, "fault_at": None,
        "answer_style": 0, "input_dirs": ["in", "in/a"]}
+# seed C06-10: a dangling relative link is moved (path mode) to where its target exists - outside the input directory -
+# and the next file's destination leads through it; containment must be judged on the tree as it is at that file's turn
+LINKMOVE = {"spec": {"r1": None, "r1/La": ["link", "../../outx"], "r1/f": "F", "outx": None},
+            "roots": ["r1"], "explicit": [], "mode": "path", "recursive": False, "hidden": False, "strategy": "stop",
+            "answers": [], "plan": {"r1|La": "s/t", "r1|f": "s/t/f"}, "order": {"r1|La": 0, "r1|f": 1}, "sorted": True,
+            "invert": False, "dry": False, "fault_at": None, "answer_style": 0}
 K2 = scen({"r1/d": None, "r1/d/f": "F", "r1/l": ("link", "d")}, {"r1|d/f": "g", "r1|l/f": "g"}, recursive=True)
 K3 = scen({"r1/a": "A", "r1/l": ("link", "a")}, {"r1|a": "l"}, strategy="override")
 K5 = scen({"r1/a": "A", "r1/d": None, "r1/d/k": "K"}, {"r1|a": "d"}, strategy="override")
@@ -65,7 +71,7 @@ CORPUS = {
     ("C03", "runs"): [F3c, F1, F18, F18b, CHAINDIR, CHAINDIRi],
     ("C04", "dry_plans"): [dict(F3, dry=True), dict(F14, dry=True), dict(F16, dry=True)],
     ("C05", "dry_vs_real"): [F1, F3, F3c, F14, F15, F16, F16d, F13, F18, K2, K3, K5],
-    ("C06", "runs"): [F4, F16, F13, F18, F18b, F20],
+    ("C06", "runs"): [F4, F16, F13, F18, F18b, F20, LINKMOVE],
     ("C09", "cli_positions"): [
         {"t": "\t", "position": "filter", "aliases": []},              # F17: renders to the empty expression
         {"t": " ", "position": "sort", "aliases": []},
